@@ -65,6 +65,13 @@ fn start_migration(env: &Env) {
         .set(&storage::migrating::DataKey::Interfaces_Migrating, &());
 }
 
+/// Verification hook: opens the migration window without swapping the code, so that the
+/// derived `migrate` entry point of a natively registered contract can be exercised.
+#[cfg(feature = "verif-hooks")]
+pub fn verif_open_migration_window(env: &Env) {
+    start_migration(env);
+}
+
 fn ensure_is_migrating(env: &Env) -> Result<(), MigrationError> {
     ensure!(
         env.storage()
